@@ -1,60 +1,7 @@
 //! Input-generation helpers: a cycle basis (signature matrix) for a multigraph, random accepted
 //! graphs, the catalogue.  These produce INPUTS only; every expectation comes from the TLA+ side.
 
-/// Fundamental cycle basis of the multigraph; returns the E x L signature matrix.
-/// Edge e is oriented edges[e].0 -> edges[e].1.
-pub fn cycle_basis(edges: &[(usize, usize)]) -> Vec<Vec<isize>> {
-    let ne = edges.len();
-    let nv = edges.iter().map(|e| e.0.max(e.1)).max().map(|m| m + 1).unwrap_or(0);
-    let mut parent: Vec<Option<(usize, usize)>> = vec![None; nv]; // (parent vertex, edge id)
-    let mut seen = vec![false; nv];
-    let mut in_tree = vec![false; ne];
-    let mut depth = vec![0usize; nv];
-    for root in 0..nv {
-        if seen[root] || !edges.iter().any(|e| e.0 == root || e.1 == root) {
-            continue;
-        }
-        seen[root] = true;
-        let mut stack = vec![root];
-        while let Some(v) = stack.pop() {
-            for (i, e) in edges.iter().enumerate() {
-                if in_tree[i] || e.0 == e.1 {
-                    continue;
-                }
-                let w = if e.0 == v { e.1 } else if e.1 == v { e.0 } else { continue };
-                if !seen[w] {
-                    seen[w] = true;
-                    in_tree[i] = true;
-                    parent[w] = Some((v, i));
-                    depth[w] = depth[v] + 1;
-                    stack.push(w);
-                }
-            }
-        }
-    }
-    let chords: Vec<usize> = (0..ne).filter(|&i| !in_tree[i]).collect();
-    let mut sig = vec![vec![0isize; chords.len()]; ne];
-    for (l, &c) in chords.iter().enumerate() {
-        sig[c][l] = 1;
-        // close the cycle: walk from head (edges[c].1) back to tail (edges[c].0) through the tree
-        let (mut a, mut b) = (edges[c].1, edges[c].0);
-        // flow goes a -> ... -> b ; climb both to the common ancestor
-        while a != b {
-            if depth[a] >= depth[b] {
-                let (p, e) = parent[a].unwrap();
-                // traversing a -> p along the direction of flow
-                sig[e][l] += if edges[e].0 == a && edges[e].1 == p { 1 } else { -1 };
-                a = p;
-            } else {
-                let (p, e) = parent[b].unwrap();
-                // flow arrives at b from p: traversing p -> b
-                sig[e][l] += if edges[e].0 == p && edges[e].1 == b { 1 } else { -1 };
-                b = p;
-            }
-        }
-    }
-    sig
-}
+pub use crate::apicommon::cycle_basis;
 
 #[cfg(test)]
 mod tests {
